@@ -51,6 +51,19 @@ CHECKS = {
         note="Trusted: chord-and-tangent law is the group law and the case split is exhaustive on a curve (T4); base field exact (C02/C04); z3.",
         tech="LLVM-IR symbolic execution over a ring of indeterminates, case parametrisation, polynomial-identity VCs mod q in z3",
         ref="5/C05"),
+    "C06": dict(
+        cat="proof",
+        text="Signed-digit recoding WnafScalar<bits,w>::from_bigint for (bits,w) in {(64,2),(128,4),(256,4),(512,4)}: the data-dependent loop is cut "
+             "at its header; one iteration is symbolically executed from an arbitrary state (first iteration: any c; later: any index i in [1,bits] "
+             "symbolic and any c allowed by the invariant) and z3 (QF_BV) decides that the emitted digit is the residue of c in (-2^w,2^w], is "
+             "stored at wnaf[i] only, that c' = (c-u)/2 exactly over the integers (no carry of the multi-word update lost), index and exit "
+             "handling; integer lemmas (z3, per index i and ghost t) show the invariant inductive, bound the index by bits (buffer wnaf[bits+1]) "
+             "and give exactness sum wnaf[j]2^j = scalar at exit. Loop bound: none (induction). Counterexamples of the first iteration are "
+             "replayed natively (multiply_wnaf vs double-and-add).",
+        note="Claimed so far: the recoding (all scalars of each width, incl. 2^bits-1). The scalar decompositions and the group loops are further "
+             "obligations of this check when present in the evidence (names glv:*, powersofx:*, loop:*); what is not listed there is not claimed.",
+        tech="LLVM-IR symbolic execution with loop cutting (one inductive step from an arbitrary invariant state); QF_BV VCs and integer lemmas in z3; native replay",
+        ref="5/C06"),
     "C18": dict(
         cat="proof",
         text="Aliasing patterns permitted by each signature are enumerated from the IR (non-noalias parameters of the output's type); every "
@@ -61,6 +74,19 @@ CHECKS = {
         tech="LLVM-IR symbolic execution under each aliasing configuration, polynomial-identity VCs mod q in z3",
         ref="5/C18"),
 }
+
+CHECKS["C19"] = dict(
+    cat="proof",
+    text="Every extern C wrapper of bls12_381.cpp, wkdibe.cpp and lqibe.cpp (108) is symbolically executed from the IR with every callee an "
+         "uninterpreted recorder, pointer arguments distinct fresh objects and scalar/bool arguments symbolic; per path (z3 decides feasibility, case "
+         "matching and scalar equality) the callee, its template instantiation, the order/identity of its arguments and the returned value are "
+         "compared with a hand-reviewed specification (specs/c19_map.json). Struct size/alignment/member offsets of every C struct vs the C++ type it "
+         "is cast to, coeffs[68] vs num_coeffs, and the exported constants are compared as compiler-folded constants for 7 configurations "
+         "(x86-64 asm, portable 64-bit, portable 32-bit words, aarch64 and thumbv6m asm/portable) - ground comparisons, no solver.",
+    note="Wrapper traces: configuration A in quick, plus P64 and P32 in thorough. Go bindings (lang/go) out of scope: no Go toolchain. Trace-level "
+         "counterexamples (no native replay).",
+    tech="LLVM-IR symbolic execution of every C wrapper with uninterpreted callees (trace conformance decided with z3); ground comparison of compiler-folded layout constants per configuration",
+    ref="5/C19")
 
 NOT_APPLICABLE = {
 }
